@@ -482,6 +482,15 @@ def run_shard(ctx):
             run_evans(ctx, gd, rng)
     for i in range(ctx.share({"quick": 15000, "thorough": 120000}[ctx.tier])):
         run_dag(ctx, random_lvdag(rng), rng, check_sep=(i % 3 == 0))
+    # larger DAGs (10..14 nodes): the reference projection and Bayes ball are set algebra and do not mind the size
+    for i in range(ctx.share({"quick": 800, "thorough": 12000}[ctx.tier])):
+        run_dag(ctx, random_lvdag(rng, rng.randint(10, 14)), rng, check_sep=(i % 4 == 0))
+    for i in range(ctx.share({"quick": 200, "thorough": 4000}[ctx.tier])):
+        gd = gg.random_admg(rng, rng.randint(9, 13), hostile=rng.choice(["none", "isolated", "bionly", "bow", "bichain"]),
+                            p_di=rng.choice((0.15, 0.3)), p_bi=rng.choice((0.1, 0.25)))
+        run_roundtrip(ctx, gd)
+        if i % 2 == 0:
+            run_evans(ctx, gd, rng)
     for i in range(ctx.share({"quick": 60, "thorough": 1500}[ctx.tier])):
         dd = random_lvdag(rng, rng.randint(3, 5))
         run_taheri(ctx, dd, rng)
